@@ -42,6 +42,8 @@ def parseErr (s : String) : Option Err :=
   | ["reqser"] => some .cqlRequestSerialization
   | ["alloc"] => some .unableToAllocStreamId
   | ["broken"] => some .brokenConnection
+  -- the reason a connection broke for is not looked at by any policy (one model class)
+  | ["broken", _] => some .brokenConnection
   | ["bodyext"] => some .bodyExtensionsParseError
   | ["resparse"] => some .cqlResultParseError
   | ["errparse"] => some .cqlErrorParseError
